@@ -144,17 +144,22 @@ func checkReader(p *Prog, r *Report, rule string, sp layoutSpec) (*ssa.Function,
 // local `lp`) into field fld of parameter 0: a store of make(len(L)) to the
 // field and copy(field, L).
 func copiedInto(p *Prog, r *Report, rule, name string, fn *ssa.Function, s *Sym, lpOrdinal int, fld string) {
-	// the out-term of the k-th lp read
+	// the out-term of the k-th lp read (one-step or two-step form)
 	var lpCalls []*ssa.Call
-	for _, b := range fn.Blocks {
-		for _, in := range b.Instrs {
-			if c, ok := in.(*ssa.Call); ok {
-				n := calleeName(c.Common())
-				if strings.HasPrefix(n, cbString+"ReadUint") && strings.HasSuffix(n, "LengthPrefixed") {
+	for _, rp := range s.ff.RetPoints(verdictIndex(fn)) {
+		if rp.Outcome == Fails {
+			continue
+		}
+		rpc := rp
+		lpCalls = nil
+		for _, it := range p.ReadSequence(s, &rpc) {
+			if strings.HasPrefix(it.Op, "lp") {
+				if c, ok := it.Call.(*ssa.Call); ok {
 					lpCalls = append(lpCalls, c)
 				}
 			}
 		}
+		break
 	}
 	key := name + ": length-prefixed bytes are copied into ." + fld
 	if lpOrdinal >= len(lpCalls) {
@@ -600,6 +605,7 @@ func c04Cache(p *Prog, r *Report, R2 string) {
 
 func fieldsRead(fn *ssa.Function) map[string]bool {
 	out := map[string]bool{}
+	seen := map[*ssa.Function]bool{}
 	var visit func(f *ssa.Function)
 	visit = func(f *ssa.Function) {
 		for _, b := range f.Blocks {
@@ -615,7 +621,19 @@ func fieldsRead(fn *ssa.Function) map[string]bool {
 		for _, a := range f.AnonFuncs {
 			visit(a)
 		}
+		// same-type helpers the method delegates to (encode(), fields(), ...)
+		for _, b := range f.Blocks {
+			for _, in := range b.Instrs {
+				if c, ok := in.(ssa.CallInstruction); ok {
+					if g := c.Common().StaticCallee(); g != nil && InModule(g) && g.Blocks != nil && !seen[g] && fnPkgPath(g) == fnPkgPath(fn) {
+						seen[g] = true
+						visit(g)
+					}
+				}
+			}
+		}
 	}
+	seen[fn] = true
 	visit(fn)
 	return out
 }
